@@ -858,6 +858,51 @@ def decode_req(req, head):
     return enrich, prog, inputs
 
 
+def _list_variants(ss):
+    """smaller variants of a statement list: drop one statement, replace a compound statement by one of its bodies,
+    shrink inside a compound statement"""
+    for i, s in enumerate(ss):
+        yield ss[:i] + ss[i + 1:]
+    for i, s in enumerate(ss):
+        for k in kids_of(s):
+            yield ss[:i] + list(k) + ss[i + 1:]
+    for i, s in enumerate(ss):
+        h = _h(s)
+        if h == 'do':
+            for v in _list_variants(s[5]):
+                yield ss[:i] + [s[:5] + [v]] + ss[i + 1:]
+        elif h == 'while':
+            for v in _list_variants(s[2]):
+                yield ss[:i] + [s[:2] + [v]] + ss[i + 1:]
+        elif h == 'if':
+            for v in _list_variants(s[2]):
+                yield ss[:i] + [[s[0], s[1], v, s[3]]] + ss[i + 1:]
+            for v in _list_variants(s[3]):
+                yield ss[:i] + [[s[0], s[1], s[2], v]] + ss[i + 1:]
+        elif h == 'assoc':
+            for v in _list_variants(s[2]):
+                yield ss[:i] + [[s[0], s[1], v]] + ss[i + 1:]
+        elif h == 'select':
+            for j, c in enumerate(s[2]):
+                for v in _list_variants(c[1]):
+                    if v:       # the frontend mis-pairs empty CASE blocks (notes/FIR.md L1)
+                        yield ss[:i] + [[s[0], s[1], s[2][:j] + [[c[0], v]] + s[2][j + 1:], s[3]]] + ss[i + 1:]
+            for v in _list_variants(s[3]):
+                yield ss[:i] + [[s[0], s[1], s[2], v]] + ss[i + 1:]
+
+
+def shrink_request(req):
+    """structure-preserving smaller requests: fewer input sets, fewer statements in the main unit (declarations and
+    callees are kept, so the program stays well-formed; variants that no longer run are skipped by the oracle)"""
+    head, enrich, prog, inputs = req[0], req[1], req[2], req[3]
+    if len(inputs) > 1:
+        for i in range(len(inputs)):
+            yield [head, enrich, prog, inputs[:i] + inputs[i + 1:]]
+    main = prog[2]
+    for v in _list_variants(list(main[4])):
+        yield [head, enrich, prog[:2] + [[main[0], main[1], main[2], main[3], v]] + prog[3:], inputs]
+
+
 HAND = [
     # the probed witnesses (DESIGN 4.E R): conditional definition kills a later use; call to a routine without intents
     '''(dfa false (program kernel (unit kernel (n y) ((decl n int in () none) (decl y int inout (((i 1) (v n))) none) (decl x int none () none) (decl i1 int none () none)) ((assign (v x) (i 5)) (do i1 (i 1) (v n) none ((if (bin eq (v i1) (i 2)) ((assign (v x) (i 0))) ()) (assign (idx y (v i1)) (v x)) (assign (v x) (bin add (v x) (i 1)))))))) (((n (i 3)) (y (i 0) (i 0) (i 0)))))''',
@@ -905,6 +950,9 @@ class C26(Prop):
 
     def classes(self):
         return CLASSES
+
+    def shrink_candidates(self, req):
+        return shrink_request(req)
 
     def tables(self):
         return {'LokiModel/Generated/C26Tables.lean': gen_tables()}
